@@ -35,6 +35,7 @@ type srvOpt struct {
 	ResetOnWrite bool // after the server closed, the client's next write fails (RST) instead of vanishing
 	BadLen      bool // may send a frame whose header announces more bytes than ever arrive
 	Delay       time.Duration // the server thinks this long before every action (slow server)
+	PauseAfterAnswer time.Duration // after an answer the server does not read for this long: the client's next Write blocks that long (full send buffer)
 	SplitStall  time.Duration // TCP: every answer but the first of a connection arrives in two segments with this pause between them (a stall inside a frame)
 	MuteAfter   int           // >0: after this many answers (all connections together) the server never answers again
 	DropFirst   int           // the first n queries arriving on every connection are lost (UDP loss): only a resend gets an answer
@@ -92,6 +93,8 @@ type tConn struct {
 	actLog     string // server actions taken on this connection, in order
 	openedFor  int // call on whose behalf the connection was dialed (-1 unknown)
 	dropped    int // queries lost on arrival (srvOpt.DropFirst)
+	notReading bool // srvOpt.PauseAfterAnswer: the server is not reading right now
+	pausedOnce bool
 }
 
 type xmit struct {
@@ -154,6 +157,13 @@ func (s *tsys) newConn() *tConn {
 	cn.a, cn.b = fk.NewPipe(fmt.Sprintf("c%d", cn.idx), !s.tcp)
 	s.conns = append(s.conns, cn)
 	cn.a.WriteHook = func(c *fk.Conn, wb []byte, nth int) error {
+		if cn.notReading {
+			// the peer does not read and the send buffer is full: this Write blocks
+			vs.Block("conn.write.full", unsafe.Pointer(cn), func() bool { return !cn.notReading || s.stop || cn.a.Closed() })
+			if cn.a.Closed() {
+				return fk.ErrInjected
+			}
+		}
 		s.writes++
 		if s.opt.WriteFailNth > 0 && s.writes == s.opt.WriteFailNth {
 			return fk.ErrInjected
@@ -359,6 +369,13 @@ func (s *tsys) serve(cn *tConn) {
 			w.answered++
 			if a.kind == "answer+close" {
 				s.srvClose(cn)
+			} else if so.PauseAfterAnswer > 0 && !cn.pausedOnce {
+				cn.pausedOnce, cn.notReading = true, true
+				vs.Sleep(so.PauseAfterAnswer)
+				cn.notReading = false
+				if s.stop || cn.a.Closed() {
+					return
+				}
 			}
 		case "dup":
 			cn.dupLeft--
